@@ -766,6 +766,15 @@ def bessel_of_complex_coefficient():
 
 
 @unsupported
+def restricted_coefficient_in_expression():
+    """an expression has one cell: f('-') / avg(f) would address a second cell's half of w that does not exist"""
+    ufl, _, _ = _U()
+    m = mesh("triangle")
+    f = ufl.Coefficient(space(m, "Lagrange", 1))
+    return [(f("-") + ufl.avg(f), np.array([[0.25], [0.5]]))], {}, "expr"
+
+
+@unsupported
 def sum_factorization_without_tensor_product_element():
     ufl, _, _ = _U()
     m = mesh("hexahedron")
